@@ -307,7 +307,18 @@ def c02_3(rep, ix, M):
         if slot == "keyword" and isinstance(val, ast.Name):
             rep.ok(R, ix.site(f, n), "`%s`: keyword slot receives the collected value list" % txt)
             continue
-        direct = val is not None and isinstance(val, (ast.Call, ast.Subscript)) and u(val).startswith(okvals) and how in ("append", "store")
+        if isinstance(val, ast.Name):
+            # the evaluator's result bound to a local just before it is stored
+            st_ = stmt_of(fn, n)
+            rv = resolved_text(fn, val, st_) if st_ is not None else u(val)
+            try:
+                val = ast.parse(rv, mode="eval").body
+            except SyntaxError:
+                pass
+        # the stored expression IS the evaluator call (or the table lookup) - not something computed from it
+        direct = val is not None and how in ("append", "store") and (
+            (isinstance(val, ast.Call) and isinstance(val.func, ast.Name) and val.func.id in ("_expression", "_literal"))
+            or (isinstance(val, ast.Subscript) and isinstance(val.value, ast.Name) and val.value.id == "_VAR"))
         rep.check(direct, R, ix.site(f, n), "`%s`: the %s value is the evaluator's result for that child, stored unmodified and in order (append / dict insertion)" % (txt, slot),
                   "stores `%s` via %s" % (u(val) if val is not None else None, how), key="store|" + txt)
     # keyword name is the NAME token of the kwarg
